@@ -48,7 +48,7 @@ def states_for_query(order, q):
     """spec states (flags, tick_lo, tick_hi, deadline) that can be current at some instant inside q's interval for this order.
     tick_lo/hi = interval of the unix tick at which 'finished' was established (0,0 = not finished)"""
     out = []
-    flags, tick, dl = 0, (0, 0), False
+    flags, ticks, dl = 0, {(0, 0)}, False   # ticks: set of possible 'finished' instants (interval of the establishing op); (0,0) = not finished
     # position p: q takes effect after the first p ops. allowed iff ops[:p] all started before q returned and ops[p:] all returned after q was called
     for p in range(len(order) + 1):
         if p > 0:
@@ -57,17 +57,22 @@ def states_for_query(order, q):
             if w in ("redirector_ready", "listener_started", "key_latched"):
                 flags |= {"redirector_ready": R, "listener_started": L, "key_latched": K}[w]
                 if flags == ALL:
-                    tick = (op["u0"], op["u1"])
+                    ticks = {(op["u0"], op["u1"])}
             elif w == "reset":
                 flags &= ~K
-                tick = (op["u0"], op["u1"]) if flags == ALL else (0, 0)
+                ticks = {(op["u0"], op["u1"])} if flags == ALL else {(0, 0)}
             elif w == "timeup":
+                # the deadline passed: 'finished' at this instant; when everything was ready already the earlier instant may stay
                 if flags != ALL:
-                    tick = (op["u0"], op["u1"]); dl = True
+                    ticks = {(op["u0"], op["u1"])}
+                else:
+                    ticks = ticks | {(op["u0"], op["u1"])}
+                dl = True
         before_ok = all(o["t0"] < q["t1"] for o in order[:p])
         after_ok = all(o["t1"] > q["t0"] for o in order[p:])
         if before_ok and after_ok:
-            out.append((flags, tick, dl))
+            for tick in ticks:
+                out.append((flags, tick, dl))
     return out
 
 
@@ -172,11 +177,22 @@ def worker(args, scratch):
             history.append({"what": "listener_started", "t0": 0, "t1": 1, "u0": 0, "u1": t_begin, "channel_latched": latched})
             ticks = [0, -5, 1, t_begin, 2 ** 100]
 
+            race = h % 4 == 3   # production-shaped overlap: the last readiness report arrives while the key keeper runs the deadline handler
+            gate = threading.Barrier(2)
+
             def redirector():
-                time.sleep(r.random() * 0.004)
+                if race:
+                    gate.wait(5)
+                else:
+                    time.sleep(r.random() * 0.004)
                 do("redirector_ready")
 
             def keeper():
+                if race:
+                    do("key_latched")
+                    gate.wait(5)
+                    do("timeup", dir=None)
+                    return
                 for _ in range(r.randrange(1, 5)):
                     time.sleep(r.random() * 0.003)
                     w = r.choice(["key_latched", "key_latched", "reset", "timeup"])
